@@ -46,3 +46,7 @@ pub const KF_C10_TRAILER_DISPLAY_DROPS_PDM: bool = false;
 pub const KF_C10_TRAILER_DISPLAY_DROPS_SYS: bool = true;
 #[cfg(not(kani))]
 pub const KF_C10_TRAILER_DISPLAY_DROPS_SYS: bool = false;
+#[cfg(kani)]
+pub const KF_C04_MT935_T14: bool = true;
+#[cfg(not(kani))]
+pub const KF_C04_MT935_T14: bool = false;
